@@ -607,6 +607,19 @@ class Interp:
             if r is not None:
                 self.trace.append((f[1], args))
                 return r[0]
+            tgt = self.repo.lookup(f[1])
+            if isinstance(tgt, model.FuncInfo) and self.follow:
+                r = self.oracle(tgt.key, args, kwargs)
+                if r is not None:
+                    self.trace.append((tgt.key, args))
+                    return r[0]
+                sub = Interp(self.repo, tgt.module, self.oracle,
+                             self.isinstance_oracle, self.max_steps)
+                sub.symbolic_ops = self.symbolic_ops
+                sub.steps, sub.trace = self.steps, self.trace
+                out = sub.apply(tgt.node, {}, args, kwargs)
+                self.steps = sub.steps
+                return out
             if f[1] in PURE_LIBRARY and not any(
                     isinstance(a, (Sym, Obj, Closure)) for a in args):
                 import importlib
